@@ -285,8 +285,8 @@ func skeletonTexts(c *layoutCase, cache map[string]string) {
 	if _, ok := cache[c.Skel]; ok || c.sk == nil {
 		return
 	}
-	if c.sk.Syntax == "none" {
-		cache[c.Skel] = handWritten[c.Skel]
+	if t, ok := handWritten[c.Skel]; ok {
+		cache[c.Skel] = t
 		return
 	}
 	cache[c.Skel] = featgen.Render(&featgen.Case{Syntax: c.sk.Syntax, Features: c.sk.Features})[featgen.Main]
